@@ -26,6 +26,8 @@ rc, out = sh("git -C %s diff --quiet" % TARGET)
 assert rc == 0, TARGET + " has uncommitted changes"
 res = {}
 for d in sorted(os.listdir("/verif/seeded")):
+    if not os.path.isdir("/verif/seeded/" + d):
+        continue
     prop = d.split("-")[0]
     if only and prop not in only and d not in only:
         continue
